@@ -1949,6 +1949,13 @@ class ExplodeFrame(ExplodeSeries):
 
     def _simplify_up(self, parent, dependents):
         if isinstance(parent, Projection):
+            columns = determine_column_projection(
+                self, parent, dependents, [self.column]
+            )
+            if not isinstance(columns, list):
+                # Only the exploded column is selected, as a Series: the argument of
+                # Series.explode is ignore_index, not the column
+                return ExplodeSeries(self.frame[columns])
             return plain_column_projection(self, parent, dependents, [self.column])
 
 
